@@ -345,6 +345,21 @@ func RunC17(run *vk.Run) {
 		sevBaseB = append(sevBaseB, unknown...)
 		tdxBaseB, _ := proto.Marshal(&tcpb.Policy{TdQuoteBodyPolicy: &tcpb.TDQuoteBodyPolicy{MinimumTeeTcbSvn: bytes.Repeat([]byte{1}, 16)}})
 		tdxBaseB = append(tdxBaseB, unknown...)
+		// the endorsed guest policy is carried into the result bit for bit, also bits this build's
+		// go-sev-guest does not name (platform requirements of newer firmware ABIs)
+		for _, pol := range []uint64{ProdPolicy | 1<<23, ProdPolicy | 1<<24 | 1<<23, ProdPolicy | 1<<21, ProdPolicy | 1<<40} {
+			gp := GoldenSpec{Snp: map[uint32][]byte{2: Meas("p2")}, Svn: 5, Digest: Meas("fw"), Timestamp: time.Date(2025, 2, 1, 0, 0, 0, 0, time.UTC), ClSpec: 1, Cert: m.SignCert.Raw, Policy: pol}
+			ep := Endorse(gp.Proto(), m.S)
+			for _, b := range []*cpb.Policy{nil, {}, {Policy: pol}} {
+				for _, ow := range []bool{false, true} {
+					out, err := gtb.SevPolicy(ctx, ep, &gtb.SevPolicyOptions{Base: b, LaunchVmsas: 2, Overwrite: ow})
+					run.Case(fmt.Sprintf("endorsed-policy:%#x:%v:%v", pol, b != nil, ow), true)
+					if err == nil && out.GetPolicy() != pol {
+						run.Violation("not-from-endorsement:sev:policy-bits", fmt.Sprintf("sev policy derivation: the endorsement's guest policy is %#x, the derived policy carries %#x (base guest policy %#x, overwrite %v)", pol, out.GetPolicy(), b.GetPolicy(), ow), nil)
+					}
+				}
+			}
+		}
 		decodeForm := func(form string, b []byte) ([]byte, error) {
 			switch form {
 			case "hex":
